@@ -29,12 +29,13 @@ Theorem C02_va_to_rva_total : forall v va, no_fault (va_to_rva v va).
 Proof. exact SafetyProofs.va_to_rva_no_fault. Qed.
 Print Assumptions C02_va_to_rva_total.
 
-(* slicing and reading, file and mapped views, any (address, min_size, align) *)
-Theorem C02_slice_total : forall v rva min_size align, no_fault (slice v rva min_size align).
-Proof. exact SafetyProofs.slice_no_fault. Qed.
+(* slicing and reading, file and mapped views, any address and min_size, any power-of-two align (the documented
+   precondition of AlignTo: anything else fails a debug assertion by design) *)
+Theorem C02_slice_total : forall v rva min_size align, SafetyProofs.is_pow2 align -> no_fault (slice v rva min_size align).
+Proof. exact SafetyProofs.slice_no_fault_pow2. Qed.
 Print Assumptions C02_slice_total.
-Theorem C02_read_total : forall v va min_size align, no_fault (read v va min_size align).
-Proof. exact SafetyProofs.read_no_fault. Qed.
+Theorem C02_read_total : forall v va min_size align, SafetyProofs.is_pow2 align -> no_fault (read v va min_size align).
+Proof. exact SafetyProofs.read_no_fault_pow2. Qed.
 Print Assumptions C02_read_total.
 
 (* the typed read family on both paths (derva.. by RVA, deref.. by VA): no panic, and the sentinel / predicate
